@@ -206,8 +206,18 @@ def marks(system: Any) -> Dict[str, List[str]]:
                 hit = False
                 for n0 in cands:
                     target = srcmod.contents.get(n0)
-                    if target is None and n0 in getattr(srcmod, '_localNameToFullName_map', {}):
-                        target = system.allobjects.get(srcmod._localNameToFullName_map[n0])      # defined there, moved since
+                    nm = n0
+                    for _ in range(5):
+                        # defined there and moved since, or an alias there of something defined there and moved since: follow the names
+                        # the module leaves behind
+                        if target is not None or nm not in getattr(srcmod, '_localNameToFullName_map', {}):
+                            break
+                        full_ = srcmod._localNameToFullName_map[nm]
+                        target = system.allobjects.get(full_)
+                        if target is None and full_.startswith(srcmod.fullName() + '.'):
+                            nm = full_[len(srcmod.fullName()) + 1:]
+                        else:
+                            break
                     if isinstance(target, model.Class):
                         hit = True
                 if hit:
